@@ -168,3 +168,17 @@ func zzCheckPositions(text []rune, pat []rune, pos []int, start, end int, cs, no
 	}
 	return ok
 }
+
+func zzObserveResult(res Result, pos *[]int) {
+	zzv.Observe("start", res.Start)
+	zzv.Observe("end", res.End)
+	zzv.Observe("score", res.Score)
+	if pos != nil {
+		zzv.Observe("npos", len(*pos))
+		for _, p := range *pos {
+			zzv.Observe("pos", p)
+		}
+	} else {
+		zzv.Observe("npos", -1)
+	}
+}
